@@ -245,6 +245,85 @@ Definition no_edit (mtime recommend en dis : Z) : modify_args :=
   {| m_mtime := mtime; m_recommend := recommend; m_enable := en; m_disable := dis;
      m_title := None; m_owner := None; m_date := None; m_multi := None |}.
 
+(* ------------------------------------------------------------------ sparse files: offsets at and beyond 2^31 / 2^32 bytes
+   A file too large to be carried as a byte list is its size and the stride-sized slots (0-based) that hold a
+   non-zero byte, each with its bytes up to the last non-zero one; everything else reads as zero. The offset of slot q
+   is q * sz in Z - what int64(idx) * int64(size) computes for every int32 index and every stride in use (no wrap below
+   2^63). Proofs/C05 sparse_represents ties these operations to the byte-list operations above for every file. *)
+Definition slots : Type := list (Z * list Z).
+
+Fixpoint sp_get (q : Z) (m : slots) : list Z :=
+  match m with [] => [] | (k, v) :: r => if k =? q then v else sp_get q r end.
+Fixpoint sp_put (q : Z) (v : list Z) (m : slots) : slots :=
+  match m with
+  | [] => [(q, v)]
+  | (k, w) :: r => if q <? k then (q, v) :: (k, w) :: r else if k =? q then (q, v) :: r else (k, w) :: sp_put q v r
+  end.
+Fixpoint trim0 (l : list Z) : list Z :=
+  match l with
+  | [] => []
+  | a :: r => match trim0 r with [] => if a =? 0 then [] else [a] | r' => a :: r' end
+  end.
+
+(* a write of bs (no longer than the stride) at the start of slot q *)
+Definition sp_write (sz : nat) (q : Z) (bs : list Z) (s : Z * slots) : Z * slots :=
+  (Z.max (fst s) (q * Z.of_nat sz + lenZ bs), sp_put q (trim0 (write_at 0 bs (sp_get q (snd s)))) (snd s)).
+
+Definition sp_count (sz : nat) (s : Z * slots) : Z := fst s / Z.of_nat sz.
+Definition sp_append (sz : nat) (rec : list Z) (s : Z * slots) : Z * (Z * slots) :=
+  let idx := sp_count sz s in (idx + 1, sp_write sz idx rec s).
+Definition sp_substitute (sz : nat) (idx : Z) (rec : list Z) (s : Z * slots) : rres (Z * slots) :=
+  if idx <? 0 then RErr ERR_SEEK else ROk (sp_write sz idx rec s).
+Definition sp_delete (sz : nat) (idx : Z) (tag : list Z) (s : Z * slots) : rres (Z * slots) :=
+  if idx <? 0 then RErr ERR_SEEK else ROk (sp_write sz idx tag s).
+Definition sp_record (sz : nat) (q : Z) (s : Z * slots) : list Z := fixlen sz (sp_get q (snd s)).
+Definition sp_modify (idx : Z) (name : list Z) (a : modify_args) (s : Z * slots) : rres (Z * slots) :=
+  if fst s <? Z.of_nat FH_SZ * idx then RErr ERR_INVALID_IDX
+  else if idx - 1 <? 0 then RErr ERR_SEEK
+  else
+    let r := sp_record FH_SZ (idx - 1) s in
+    if negb (cstrcmp (read_at OFF_FILENAME LEN_FILENAME r) name =? 0) then RErr ERR_INVALID_IDX
+    else ROk (sp_write FH_SZ (idx - 1) (apply_modify a r) s).
+Definition sp_get_records (start n : Z) (desc : bool) (s : Z * slots) : rres (list (Z * list Z)) :=
+  match get_records_idx start n desc (sp_count FH_SZ s) with
+  | ROk l => ROk (map (fun i => (i, sp_record FH_SZ (i - 1) s)) l)
+  | RErr e => RErr e
+  | RCrash => RCrash
+  end.
+
+Fixpoint parse_slots (l : list (list Z)) : option slots :=
+  match l with
+  | [] => Some []
+  | [q] :: v :: rest => match parse_slots rest with Some m => Some (sp_put q (trim0 v) m) | None => None end
+  | _ => None
+  end.
+Fixpoint wire_slots (m : slots) : list Z :=
+  match m with
+  | [] => []
+  | (q, v) :: r => match v with [] => wire_slots r | _ => q :: lenZ v :: v ++ wire_slots r end
+  end.
+Fixpoint live_slots (m : slots) : Z :=
+  match m with [] => 0 | (_, v) :: r => (match v with [] => 0 | _ => 1 end) + live_slots r end.
+Definition wire_sparse (s : Z * slots) : list Z := fst s :: live_slots (snd s) :: wire_slots (snd s).
+Definition wire_sr (r : rres (Z * slots)) (s : Z * slots) : list Z :=
+  match r with ROk s' => ST_OK :: 0 :: wire_sparse s' | RErr e => ST_ERR :: e :: wire_sparse s | RCrash => [ST_CRASH] end.
+
+Definition run_sparse (sz kind idx n desc mtime L : Z) (data : list Z) (m : slots) : list Z :=
+  let s := (L, m) in
+  let z := Z.to_nat sz in
+  if kind =? 1 then let r := sp_append z data s in ST_OK :: fst r :: wire_sparse (snd r)
+  else if kind =? 2 then wire_sr (sp_substitute z idx data s) s
+  else if kind =? 3 then wire_sr (sp_delete z idx data s) s
+  else if kind =? 4 then wire_sr (sp_modify idx data (no_edit mtime 0 0 0) s) s
+  else if kind =? 5 then
+    match sp_get_records idx n (negb (desc =? 0)) s with
+    | ROk l => ST_OK :: lenZ l :: wire_records l
+    | RErr e => [ST_ERR; e]
+    | RCrash => [ST_CRASH]
+    end
+  else if kind =? 6 then [ST_OK; sp_count z s]
+  else [ST_BADCASE].
+
 (* a history on the wire: per operation a header [kind refused idx mtime recommend enable disable] and a data group
    (kind 1 append: record; 2 substitute idx: record; 3 delete idx: tag; 4 modify idx (1-based): name) *)
 Fixpoint parse_hops (l : list (list Z)) : option (list hop) :=
@@ -279,7 +358,8 @@ Fixpoint wire_htrace (t : list ((Z * Z) * list Z)) : list Z :=
    op 7 passwd_update [sz max_users uid] rec f
    op 8 crash_append [sz k] rec f  -> 0 f'
    op 12 history [sz] f (hdr data)* -> 0 (status code |f'| f')*   one process, refused writes interleaved
-   op 13 window indices [cnt start n desc] [seed] -> 0 k idx* | 3 1 | 1   GetRecords on a generated file of cnt records *)
+   op 13 window indices [cnt start n desc] [seed] -> 0 k idx* | 3 1 | 1   GetRecords on a generated file of cnt records
+   op 15 sparse [sz kind idx n desc mtime] [L] data (slot bytes)*   the operations on a sparse file of L bytes *)
 Definition run_case (args : list (list Z)) : list Z :=
   match args with
   | [[1]; [sz]; rec; f] => let r := append_record (Z.to_nat sz) rec f in ST_OK :: fst r :: snd r
@@ -309,6 +389,11 @@ Definition run_case (args : list (list Z)) : list Z :=
       | ROk l => ST_OK :: lenZ l :: l
       | RErr e => [ST_ERR; e]
       | RCrash => [ST_CRASH]
+      end
+  | [15] :: [sz; kind; idx; n; desc; mtime] :: [L] :: data :: rest =>
+      match parse_slots rest with
+      | Some m => run_sparse sz kind idx n desc mtime L data m
+      | None => [ST_BADCASE]
       end
   | _ => [ST_BADCASE]
   end.
